@@ -34,6 +34,8 @@ class Summary:
 def summaries(ctx):
     """(initial states, next-summaries, engine)"""
     eng = e2_tree.make_engine(ctx)
+    eng.solver.set("timeout", 120000)
+    eng._timeout_ms = 120000
     used = z3.BitVec("used", U)
     new_fn = [f for n, f in eng.fns.items() if re.search(r"parallel::.*::new$", n) and "-> ConcurrentNodeIds" in f.header][0]
     inits = []
@@ -135,13 +137,6 @@ def check_interleavings(ctx, k, m, timeout_s):
     res = {"k": k, "m": m, "init_paths": len(inits), "next_paths": len(sums), "queries": 0, "violations": [],
            "unknown": [], "witness": None, "encoded": sorted(E.short(n) for n in eng.encoded),
            "events_per_path": [len(s.events) for s in sums]}
-    if any(s.ok is None for s in sums):
-        # a panicking path of `next`: feasible only if its path condition is satisfiable at all
-        for s in sums:
-            if s.ok is None:
-                okk, _ = eng.check(s.pc)
-                if okk:
-                    res["violations"].append({"clause": "ConcurrentNodeIds::next can panic", "schedule": None})
     calls = [(t, c) for t in range(k) for c in range(m)]
     for init_pc, init in inits:
         S = z3.Solver()
@@ -157,6 +152,7 @@ def check_interleavings(ctx, k, m, timeout_s):
         # instantiate one copy of every summary path per call
         inst = {}
         all_events = []   # (call, path, idx, kind, field, readvar, writeval, active, ts)
+        panic_flags = []
         choice = {}
         results = {}
         for call in calls:
@@ -165,9 +161,12 @@ def check_interleavings(ctx, k, m, timeout_s):
             S.add(ch >= 0, ch < len(sums))
             oks, vals = [], []
             for pi, s in enumerate(sums):
-                if s.ok is None:
-                    S.add(ch != pi)
-                    continue
+                panicking = s.ok is None
+                if panicking:
+                    # a path of `next` that ends in a panic (e.g. a rustc overflow check): whether it can be
+                    # taken is decided inside the interleaving formula, with the real initial state
+                    s = Summary(s.events, s.pc, z3.BoolVal(False), BV(0, 32), None)
+                    panic_flags.append(ch == pi)
                 vs = vars_of(list(s.pc) + [e[2] for e in s.events if e[2] is not None] +
                              [e[3] for e in s.events if e[3] is not None] + [s.value, s.ok])
                 sub = []
@@ -230,7 +229,7 @@ def check_interleavings(ctx, k, m, timeout_s):
             for j in range(i + 1, len(flat)):
                 okb, idb = flat[j]
                 bad.append(z3.And(oka, okb, ida == idb))
-        S.add(z3.Or(bad))
+        S.add(z3.Or(bad + panic_flags))
         res["queries"] += 1
         r = S.check()
         if r == z3.unknown:
@@ -246,7 +245,9 @@ def check_interleavings(ctx, k, m, timeout_s):
             rets = {f"t{c[0]}c{c[1]}": (str(mdl.eval(results[c][0], model_completion=True)),
                                         mdl.eval(results[c][1], model_completion=True).as_long()) for c in calls}
             confirmed = simulate(sched, init, mdl, rets)
-            res["violations"].append({"clause": "two requesters obtain the same id, or an id in use",
+            panicked = any(z3.is_true(mdl.eval(p, model_completion=True)) for p in panic_flags)
+            res["violations"].append({"clause": ("a request panics (rustc overflow check / unwrap) under this schedule" if panicked
+                                                 else "two requesters obtain the same id, or an id in use"),
                                       "used": [i for i in range(U) if uv >> i & 1], "schedule": sched,
                                       "returns": rets, "confirmed_by_interpreter": confirmed})
     res["solver_s"] = round(time.time() - t0, 2)
